@@ -863,6 +863,7 @@ class Extractor:
     def __init__(self, repo, template_path=None):
         self.repo = repo
         self.template_path = template_path
+        self.cv_members = set()  # data members that are CoordinateVector values: m[i] is lowered to m.c[i]
         self.sources = {}
         self.report = dict(functions=[], members=[], dropped=[
             'access control, inline/virtual/static/explicit specifiers, const member qualifiers',
@@ -908,6 +909,8 @@ class Extractor:
             decl = '%s %s%s%s;' % (ty, m['ptr'].replace('&', '*'), m['name'], m['arr'])
             lines.append('/* %s:%d */ %s' % (a['file'], m['line'], decl))
             names.append(m['name'])
+            if ty.startswith('struct cm_cv_') and not m['arr'] and not m['ptr']:
+                self.cv_members.add(m['name'])
         if only is not None and set(names) != only:
             raise ExtractionError('members not found in %s: %s' % (cls, sorted(only - set(names))))
         if not names:
@@ -1180,6 +1183,11 @@ class Extractor:
             inner, k = self.inline_calls(inner, nm, ifile, icls, rep)
             if k == 0:
                 raise ExtractionError('%s: inline %s never used' % (a['cname'], nm))
+        # operator[] on CoordinateVector-valued data members
+        for nm in sorted(self.cv_members):
+            inner, k = re.subn(r'(?<![\w.>])' + re.escape(nm) + r'\s*\[', nm + '.c[', inner)
+            if k:
+                rep['rules']['coordinatevector_member_index'] = rep['rules'].get('coordinatevector_member_index', 0) + k
         # call map (member function calls on the implicit object)
         for nm, cn in blk.callmap.items():
             inner, k = re.subn(r'(?<![\w.>:])' + re.escape(nm) + r'\s*\(', cn + '(', inner)
@@ -1210,7 +1218,10 @@ class Extractor:
             loops = dict(find_loops(inner))
             for ordn, lines in blk.loops.items():
                 if ordn not in loops:
-                    raise ExtractionError('%s: loop %d not found (%d loops)' % (a['cname'], ordn, len(loops)))
+                    # the loop this contract was written for no longer exists (e.g. turned into an 'if'):
+                    # the function contract is still checked, without that loop contract
+                    rep.setdefault('loop_contracts_not_applied', []).append(ordn)
+                    continue
                 ins.append((loops[ordn], '\n' + self._tl(blk.loop_lines[ordn]) + '\n'.join(lines) + '\n'))
             rep['loops_annotated'] = sorted(blk.loops)
             rep['loops_total'] = len(loops)
